@@ -1,4 +1,5 @@
 import NfpmModel.Wire
+import NfpmModel.Spec.PlanSpec
 /-
   Model driver: one request per line on stdin, one answer per line on stdout.
   Core-only so that it links as a `lean_exe`.
@@ -38,6 +39,15 @@ def handle (op : String) (args : List String) : Except String String :=
     pure (match plan O cfg raw with
       | .ok l => showContents l
       | .error e => "err " ++ e.name)
+  | "c05spec" => do
+    let (cfg, raw, O, res) ← run1 (do
+      let cfg ← pPlanCfg
+      let raw ← pList pContent
+      let O ← pOracle
+      let res ← pPlanResult
+      pure (cfg, raw, O, res)) args
+    let v := Spec.check O cfg raw res
+    pure (if v.isEmpty then "holds" else "violated " ++ String.intercalate ";" (v.map (fun s => s.replace " " "_")))
   | _ => .error s!"unknown op {op}"
 
 partial def loop (hin : IO.FS.Stream) (hout : IO.FS.Stream) : IO Unit := do
@@ -50,6 +60,7 @@ partial def loop (hin : IO.FS.Stream) (hout : IO.FS.Stream) : IO Unit := do
     match handle op args with
     | .ok s => hout.putStrLn s
     | .error e => hout.putStrLn ("bad-op " ++ e)
+  hout.flush
   loop hin hout
 
 def main : IO Unit := do
